@@ -261,14 +261,14 @@ func runC05(t *testing.T, p *Plan) *Outcome {
 				return
 			}
 			// attribute keyspace steps to the owning op (the task itself or a client task's server conn)
-			if i, ok := taskOp[tk]; ok && strings.HasPrefix(tk.Site, "ks.") {
+			if i, ok := taskOp[tk]; ok && isLockSite(tk.Site) {
 				ksSteps[i] = append(ksSteps[i], s.Step)
-			} else if strings.HasPrefix(tk.Site, "ks.") || tk.Site == "conn.read" {
+			} else if isLockSite(tk.Site) || tk.Site == "conn.read" {
 				// server-side task of a TCP client: attribute to that client's current op
 				for c := 0; c < nclients; c++ {
 					if cs[c].TCP && next[c] > 0 && strings.HasSuffix(tk.Name, cs[c].Name) {
 						i := perClient[c][next[c]-1]
-						if strings.HasPrefix(tk.Site, "ks.") {
+						if isLockSite(tk.Site) {
 							ksSteps[i] = append(ksSteps[i], s.Step)
 						}
 					}
@@ -411,6 +411,9 @@ func runC05(t *testing.T, p *Plan) *Outcome {
 		opsStrings(p.Ops), conc.results, len(serials), blame, orders[0], best.results, DiffData(conc.data, best.data, "concurrent", "serial", 4))
 	return o
 }
+
+// isLockSite: the task is about to request the store lock (one critical section = one step).
+func isLockSite(site string) bool { return site == "lock.store" || site == "rlock.store" }
 
 func equalStrings(a, b []string) bool {
 	if len(a) != len(b) {
